@@ -281,7 +281,15 @@ func H_C20_clean_summary() {
 	withObsolete := vxrt.Bool("same-obsolete-id-in-two-files")
 	cg := WithConfig(Dir(dir), Filename("g"))
 	if withObsolete {
-		vxWriteFile(dir+"/f.snap", vxFrame("TestM - 1", "one")+vxFrame("TestM - 2", "two")+vxFrame("TestOld - 1", "stale in f"))
+		// (the file is larger than a 4 KiB read buffer: a third obsolete entry is long)
+		long := make([]byte, 5000)
+		for i := range long {
+			long[i] = 'x'
+			if i%80 == 79 {
+				long[i] = '\n'
+			}
+		}
+		vxWriteFile(dir+"/f.snap", vxFrame("TestM - 1", "one")+vxFrame("TestOld - 1", "stale in f")+vxFrame("TestM - 2", "two")+vxFrame("TestOld - 2", string(long)))
 		vxWriteFile(dir+"/g.snap", vxFrame("TestM - 1", "gee")+vxFrame("TestOld - 1", "stale in g"))
 	}
 	nPassed, nFailed, nAdded := 0, 0, 0
@@ -314,7 +322,7 @@ func H_C20_clean_summary() {
 	Clean(nil)
 	out := vxrt.Stdout()
 	if withObsolete {
-		vxrt.Assert(strings.Contains(out, vxArrow+"2 snapshot tests obsolete") && strings.Count(out, vxBullet+"TestOld - 1\n") == 2, "C20:summary-lists-every-obsolete-entry")
+		vxrt.Assert(strings.Contains(out, vxArrow+"3 snapshot tests obsolete") && strings.Count(out, vxBullet+"TestOld - 1\n") == 2 && strings.Count(out, vxBullet+"TestOld - 2\n") == 1, "C20:summary-lists-every-obsolete-entry")
 	}
 	for _, e := range []struct {
 		verb string
